@@ -108,6 +108,12 @@ uper_open_type_get_simple(const asn_codec_ctx_t *ctx,
 	ASN_DEBUG("Getting open type %s encoded in %ld bytes", td->name,
 		(long)bufLen);
 
+	if(!td->op->uper_decoder) {
+		/* PER is not defined for this type */
+		FREEMEM(buf);
+		ASN__DECODE_FAILED;
+	}
+
 	memset(&spd, 0, sizeof(spd));
 	spd.buffer = buf;
 	spd.nbits = bufLen << 3;
@@ -154,6 +160,11 @@ uper_open_type_get_complex(const asn_codec_ctx_t *ctx,
 	ssize_t padding;
 
 	ASN__STACK_OVERFLOW_CHECK(ctx);
+
+	if(!td->op->uper_decoder) {
+		/* PER is not defined for this type */
+		ASN__DECODE_FAILED;
+	}
 
 	ASN_DEBUG("Getting open type %s from %s", td->name,
 		asn_bit_data_string(pd));
